@@ -624,8 +624,12 @@ def oracle_structural(report, quick=True):
                     if s0 % a:
                         continue
                     for sh in ([a, s0 // a], [-1, s0 // a], [a, -1], [1, a, s0 // a]):
-                        kind, sp = call(u.split_leading_dim, x, list(sh))
+                        sh_arg = list(sh)
+                        kind, sp = call(u.split_leading_dim, x, sh_arg)
                         case = {'function': 'split_leading_dim', 'shape': list(shape), 'layout': layout, 'split': sh}
+                        if sh_arg != list(sh):
+                            report('split_leading_dim changed the `shape` list it was given: %s -> %s (a re-used list then carries a stale shape)' % (list(sh), sh_arg),
+                                   case, {'function': 'split_leading_dim', 'symptom': 'argument-modified'})
                         full = [v if v != -1 else s0 // max(1, -int(np.prod(sh))) for v in sh]
                         exp = ref.reshape(tuple(full) + tuple(shape[1:]))
                         if kind != 'ok' or tuple(sp.shape) != exp.shape or not np.array_equal(_np_of(sp), exp):
